@@ -548,6 +548,116 @@ func (s *c04state) chained(qs []c04q, xor uint16, out func(string)) (execs int64
 	return execs
 }
 
+// ---------------------------------------------------------------- a response made for another question
+
+// c04preset answers the question it sees (like hosts / arbitrary / black_hole do)
+// when it is the one it is configured for, and lets the chain go on.
+type c04preset struct{ for_ c04q }
+
+func (p c04preset) Exec(ctx context.Context, qCtx *query_context.Context, next sequence.ChainWalker) error {
+	if at, ok := c04qOfCtx(qCtx); ok && at.ident() == p.for_.ident() {
+		resp := new(dns.Msg)
+		resp.SetReply(qCtx.Q())
+		resp.Answer = append(resp.Answer, &dns.TXT{Hdr: dns.RR_Header{Name: qCtx.Q().Question[0].Name, Rrtype: dns.TypeTXT, Class: dns.ClassINET, Ttl: 1000000},
+			Txt: []string{strconv.FormatUint(at.id(), 10)}})
+		qCtx.SetResponse(resp)
+	}
+	return next.ExecNext(ctx, qCtx)
+}
+
+// c04rename is the redirect plugin's shape: the rest of the chain runs with
+// another name in the question, which is put back afterwards.
+type c04rename struct {
+	from c04q
+	to   string
+}
+
+func (r c04rename) Exec(ctx context.Context, qCtx *query_context.Context, next sequence.ChainWalker) error {
+	at, ok := c04qOfCtx(qCtx)
+	if !ok || at.ident() != r.from.ident() {
+		return next.ExecNext(ctx, qCtx)
+	}
+	old := qCtx.Q().Question[0].Name
+	qCtx.Q().Question[0].Name = r.to
+	err := next.ExecNext(ctx, qCtx)
+	qCtx.Q().Question[0].Name = old
+	if resp := qCtx.R(); resp != nil && len(resp.Question) == 1 && resp.Question[0].Name == r.to {
+		resp.Question[0].Name = old
+	}
+	return err
+}
+
+// c04swap is prefer_ipv4 / prefer_ipv6's shape for the address type they do not
+// prefer: the rest of the chain runs on a copy of the context which then
+// replaces the original.
+type c04swap struct{}
+
+func (c04swap) Exec(ctx context.Context, qCtx *query_context.Context, next sequence.ChainWalker) error {
+	cp := qCtx.Copy()
+	if err := next.ExecNext(ctx, cp); err != nil {
+		return err
+	}
+	*qCtx = *cp
+	return nil
+}
+
+// preset runs [a (answered in front of the cache, renamed to b's name behind it), b, b]
+// through preset(a) -> rename(a -> name of b) -> cache -> (swap) -> upstream(if no response yet).
+func (s *c04state) preset(a, b c04q, swap bool, out func(string)) (execs int64) {
+	c := NewCache(&Args{Size: 1024}, Opts{})
+	defer c.Close()
+	for i, q := range []c04q{a, b, b} {
+		w := c04wireQuery(uint16(i), c04names[q.N].wire, q.T, q.C, q.F&1 != 0, q.F&2 != 0, 0, false, 1)
+		qCtx, err := c04ctx(w, q.F&4 != 0)
+		if err != nil {
+			continue
+		}
+		up := sequence.ExecutableFunc(func(_ context.Context, qc *query_context.Context) error {
+			if qc.R() != nil {
+				return nil
+			}
+			at, ok := c04qOfCtx(qc)
+			if !ok {
+				return nil
+			}
+			resp := new(dns.Msg)
+			resp.SetReply(qc.Q())
+			resp.Answer = append(resp.Answer, &dns.TXT{Hdr: dns.RR_Header{Name: qc.Q().Question[0].Name, Rrtype: dns.TypeTXT, Class: dns.ClassINET, Ttl: 1000000},
+				Txt: []string{strconv.FormatUint(at.id(), 10)}})
+			qc.SetResponse(resp)
+			return nil
+		})
+		nodes := []*sequence.ChainNode{{RE: c04rename{from: a, to: c04names[b.N].pres}}, {RE: c}}
+		if swap {
+			nodes = append(nodes, &sequence.ChainNode{RE: c04swap{}})
+		}
+		nodes = append(nodes, &sequence.ChainNode{E: up})
+		execs++
+		func() {
+			defer func() {
+				if p := recover(); p != nil && s.res.Infra == "" {
+					s.res.Infra = fmt.Sprintf("preset-response: panic on query %v: %v", q, p)
+				}
+			}()
+			if err := (c04preset{a}).Exec(context.Background(), qCtx, sequence.NewChainWalker(nodes, nil)); err != nil && s.res.Infra == "" {
+				s.res.Infra = fmt.Sprintf("preset-response: Exec failed on query %v: %v", q, err)
+			}
+		}()
+		var o c04obs
+		if r := qCtx.R(); r != nil {
+			o.hasResp = true
+			o.marker, o.markerOK = c04marker(r)
+			o.fromCache = i == 2
+		}
+		k := s.check("preset-response", q, o)
+		if i == 0 && k == "miss-forwarded" {
+			k = "answered-in-front-of-the-cache"
+		}
+		out(fmt.Sprintf("q%d/%s", i, k))
+	}
+	return execs
+}
+
 // ---------------------------------------------------------------- the check
 
 type c04pairJSON struct {
@@ -555,6 +665,8 @@ type c04pairJSON struct {
 	B c04qJSON `json:"b"`
 	// Chained: B was asked (alternating with A's type) at cache -> fork -> cache -> upstream
 	Chained bool `json:"chained,omitempty"`
+	// Preset: A was answered by a plugin in front of the cache and renamed to B's name behind it, then B was asked twice
+	Preset bool `json:"preset,omitempty"`
 }
 
 type c04state struct {
@@ -589,8 +701,8 @@ func (s *c04state) check(scn string, q c04q, o c04obs) string {
 		return "miss-forwarded"
 	}
 	kind := c04kind(src, q)
-	if scn == "chained-caches" {
-		kind = "chained-caches/" + kind
+	if scn == "chained-caches" || scn == "preset-response" {
+		kind = scn + "/" + kind
 	}
 	if _, ok := s.foreign[kind]; !ok {
 		s.foreign[kind] = [2]c04q{src, q}
@@ -677,6 +789,31 @@ func TestVerifC04(t *testing.T) {
 			}
 		}
 	}
+	// B6: a plugin in front of the cache answers question A, a redirect-like plugin renames A
+	// to B for the rest of the chain (cache -> [context swapped for a copy] -> upstream only if
+	// there is no response yet); then B itself is asked twice. Whatever B gets was made for B.
+	b6 := 0
+	for _, na := range b5names {
+		for _, nb := range b5names {
+			if c04names[na].canon == c04names[nb].canon {
+				continue
+			}
+			for _, ty := range []uint16{1, 28, 255} {
+				for f := uint8(0); f < 8; f++ {
+					for _, swap := range []bool{false, true} {
+						if !mine() || expired("all preset-response groups were done") {
+							continue
+						}
+						a, b := c04q{N: na, T: ty, C: 1, F: f}, c04q{N: nb, T: ty, C: 1, F: f}
+						execs += s.preset(a, b, swap, func(k string) { bOut("preset-response", k) })
+						res.States += 3
+						b6++
+					}
+				}
+			}
+		}
+	}
+	res.Bounds["B6.preset_response"] = fmt.Sprintf("preset(A) -> rename(A to B's name) -> cache -> {nothing, context swapped for its copy} -> upstream if no response; ordered pairs of %d names x types {1,28,255} x 8 flags; queries A, B, B", len(b5names))
 	// ------------------------------------------------------------ K: key injectivity
 	keyer := c04newKeyer()
 	seed := maphash.MakeSeed() // process-local table hash; the shard function below is deterministic
@@ -1053,6 +1190,11 @@ func TestVerifC04(t *testing.T) {
 				continue
 			}
 		}
+		if strings.HasPrefix(k, "preset-response/") {
+			res.ViolateInput("exec/foreign-answer:"+k, fmt.Sprintf("a plugin in front of the cache answered %v, a redirect-like plugin renamed the question for the rest of the chain (cache -> optional context swap -> upstream), then the other question was asked: "+
+				"it was answered with a response made for a different question: made for %v, served to %v", p[0], p[0], p[1]), c04pairJSON{A: p[0].json(), B: p[1].json(), Preset: true})
+			continue
+		}
 		if strings.HasPrefix(k, "chained-caches/") {
 			res.ViolateInput("exec/foreign-answer:"+k, fmt.Sprintf("two cache plugins in one sequence with a plugin between them that runs the rest of the chain for another question first (cache -> fork -> cache -> upstream): "+
 				"a query was answered with the cached answer of a different question: stored for %v, served to %v", p[0], p[1]), c04pairJSON{A: p[0].json(), B: p[1].json(), Chained: true})
@@ -1111,6 +1253,19 @@ func c04replay(t *testing.T, in json.RawMessage) {
 	if err1 != nil || err2 != nil {
 		fmt.Println("INFRA: bad replay input:", err1, err2)
 		t.Fatal("bad input")
+	}
+	if p.Preset {
+		st := &c04state{res: vr.New("C04", vr.Env{}), foreign: map[string][2]c04q{}}
+		for _, swap := range []bool{false, true} {
+			fmt.Printf("preset(%v) -> rename -> cache -> swap=%v -> upstream; queries %v, %v, %v\n", a, swap, a, b, b)
+			st.preset(a, b, swap, func(k string) { fmt.Println("   ", k) })
+		}
+		if len(st.foreign) > 0 {
+			fmt.Println("REPLAY-VIOLATION property=C04 a response made for another question was served from the cache")
+		} else {
+			fmt.Println("REPLAY-OK: every response belongs to the question that was asked")
+		}
+		return
 	}
 	if p.Chained {
 		st := &c04state{res: vr.New("C04", vr.Env{}), foreign: map[string][2]c04q{}}
